@@ -1,7 +1,9 @@
 """C13 - async cache shares one in-flight call; cancelling a waiter harms no one else."""
 import asyncio
 
-from harness.legs import cfg_text, leg_m, leg_mutant, leg_r
+import random
+
+from harness.legs import cfg_text, leg_m, leg_mutant, leg_r, leg_t_gen
 from harness.vloop import VClock, VLoop
 
 SPEC = "CacheFlight"
@@ -160,6 +162,44 @@ class FlightDriver:
                 self.clock.__exit__(None, None, None)
 
 
+def gen_trace(rnd, nops=40):
+    """random interleaving of 4 callers over 3 keys: begin / finish / cancel a waiting caller / run the loop / advance the
+    clock, recorded from the real async cache"""
+    limit, expn = rnd.choice([1, 2, 3]), rnd.choice([0, 2, 3])
+    d = FlightDriver()
+    d.reset(dict(limit=limit, expn=expn, cl=[0] * 4))
+    tr = [dict(ev="Init", init=dict(limit=limit, expn=expn))]
+    rdy, cpend = set(), set()
+    try:
+        for _ in range(nops):
+            waiting = [c for c, r in d.cl.items() if r["pc"] == "waiting"]
+            running = [i + 1 for i, r in enumerate(d.invs) if r["st"] == "running"]
+            ch = []
+            if not rdy:
+                ch += [("Begin", [c, rnd.randint(1, 3)]) for c in d.cl if d.cl[c]["pc"] != "waiting"] * 2
+                ch += [("Advance", [])]
+            else:
+                ch += [("Run", [])] * 3
+            ch += [("Finish", [i, rnd.choice(["val", "val", "exc"])]) for i in running]
+            ch += [("CancelCaller", [c]) for c in waiting if c not in cpend]
+            if not ch:
+                break
+            name, args = rnd.choice(ch)
+            if name == "Finish":
+                rdy |= {c for c in waiting if d.cl[c]["inv"] == args[0]}
+            elif name == "CancelCaller":
+                rdy.add(args[0])
+                cpend.add(args[0])
+            elif name == "Run":
+                cpend -= rdy
+                rdy = set()
+            o = d.apply(name, tuple(args))
+            tr.append(dict(ev=name, args=args, obs=dict(cl=[dict(x) for x in o["cl"]], invs=[dict(x) for x in o["invs"]])))
+    finally:
+        d.close()
+    return tr
+
+
 def run(rep, work, tier, seed):
     if tier == "quick":
         mc = dict(NCallers=3, NKeys=2, Limits=[1, 2], Expirations=[0, 2], MaxT=3, MaxOps=6, Bug="none")
@@ -177,6 +217,16 @@ def run(rep, work, tier, seed):
                                  Bug="cancel_propagates"), invariants=INVS),
                    ["NeverCancelsInvocation", "Delivers"])
     leg_r(rep, work, SPEC, f"conf_{tier}", cfg_text(conf, invariants=INVS), FlightDriver)
+    # leg T: longer random interleavings (4 callers, 3 keys, ~40 operations) validated by a trace module generated from
+    # CacheFlight.tla
+    rnd = random.Random(seed * 23 + 11)
+    traces = [gen_trace(rnd) for _ in range(150 if tier == "quick" else 2000)]
+    leg_t_gen(rep, work, SPEC, f"trace_{tier}", traces,
+              variables=["limit", "expn", "now", "entries", "invs", "cl", "cpend", "rdy", "nops", "obs"],
+              constants=dict(NCallers=4, NKeys=3, Limits="1..3", Expirations="{0, 2, 3}", MaxT=100000, MaxOps=100000,
+                             Bug='"none"'),
+              config_vars=["limit", "expn"], actions=dict(Begin=2, Finish=2, CancelCaller=1, Run=0, Advance=0),
+              invariants=["OneEntryPerKey", "NeverCancelsInvocation", "Delivers", "RightKey"])
     rep.assumptions += [
         "the wrapped coroutine is a gated double that records whether it ever saw CancelledError",
         "which running invocation a still-waiting caller is attached to is inferred (most recent running invocation of "
